@@ -33,6 +33,15 @@ var cancelProgs = []cancelProg{
 		func(lim int64) int64 { return lim }},
 	{"short", `out := lim * 2 + 1`, false,
 		func(lim int64) int64 { return lim*2 + 1 }},
+	// loops whose instruction cycle consists of jumps only
+	{"empty-loop", `out := lim; if lim < 0 { for {} }`, true,
+		func(lim int64) int64 { return lim }},
+	{"continue-loop", `out := lim; if lim < 0 { for { continue } }`, true,
+		func(lim int64) int64 { return lim }},
+	{"empty-loop-in-function", `spin := func() { for {} }; out := lim; if lim < 0 { spin() }`, true,
+		func(lim int64) int64 { return lim }},
+	{"empty-for-in-body", `out := 0; for lim < 0 || out < lim { for v in [1, 2] {}; out++ }`, true,
+		func(lim int64) int64 { return lim }},
 	{"builtin-heavy", `out := 0; for i := 0; lim < 0 || i < lim; i++ { out += len(append([1], i)) + int(string(i)) - i }`, true,
 		func(lim int64) int64 { return 2 * lim }},
 }
